@@ -72,7 +72,9 @@ class Handler(http.server.BaseHTTPRequestHandler):
                 doc["errors"] = []
             payload = json.dumps(doc).encode()
         else:
-            payload = {"nonjson": b"<html>no</html>", "array": b"[1]", "null": b"null", "no_data": b'{"x": 1}',
+            payload = {"nonjson": b"<html>no</html>", "nonjson_empty": b"", "nonjson_latin1": "<html>Acc\u00e8s refus\u00e9</html>".encode("latin-1"),
+                       "nonjson_binary": b"\x1f\x8b\x08\x00\x00\x00\x00\x00\x00\x03\xff\xfe", "nonjson_truncated": b'{"data": {"__schema": {"types": [',
+                       "array": b"[1]", "null": b"null", "no_data": b'{"x": 1}',
                        "errors_only": b'{"errors": [{"message": "denied"}]}', "data_null": b'{"data": null}',
                        "data_list": b'{"data": [1]}'}[body]
         self.send_response(status)
@@ -208,7 +210,7 @@ def run(tier, work, replay=None):
             import shutil
             shutil.rmtree(j, ignore_errors=True)
             return rsp, g, wrote
-        resp_sel = responses if not q else [r_ for r_ in responses if r_["status"] in (200, 500) or r_["body"] in ("data", "errors_and_data")]
+        resp_sel = responses if not q else [r_ for r_ in responses if r_["status"] in (200, 500) or r_["body"] in ("data", "errors_and_data") or (r_["body"].startswith("nonjson") and r_["status"] == 201)]
         for rsp, g, wrote in pmap(probe, resp_sel):
             feats = {"part": "introspection_response", "url": rsp["url"], "status": rsp["status"], "body": rsp["body"]}
             if rsp["outcome"] == "IntrospectionError":
